@@ -190,9 +190,9 @@ class OptComparationFunctions:
         """
         mgr = self.environment.formula_manager
         cast_bv = None
-        if goal.get_logic() is BV:
-            otype = self.environment.stc.get_type(goal.term())
-            assert isinstance(otype, _BVType), "Error, BV goal logic when goal term is not of BV Type"
+        otype = self.environment.stc.get_type(goal.term())
+        if otype.is_bv_type():
+            assert isinstance(otype, _BVType)
             if goal.signed:
                 cast_bv = lambda x: mgr.SBV(x, otype.width)
             else:
@@ -231,7 +231,18 @@ class OptComparationFunctions:
             },
         }
         options[QF_LIRA] = options[LRA]
-        return options[goal.get_logic()][goal.opt()][goal.signed]
+        # The comparison functions depend on the type of the goal term only;
+        # the logic of the term can be a combination (e.g. soft clauses over
+        # bit-vector atoms give an integer term in a BV+LIA logic).
+        if otype.is_bv_type():
+            goal_logic = BV
+        elif otype.is_int_type():
+            goal_logic = LIA
+        elif otype.is_real_type():
+            goal_logic = LRA
+        else:
+            goal_logic = goal.get_logic()
+        return options[goal_logic][goal.opt()][goal.signed]
 
 
 class OptSearchInterval(OptComparationFunctions):
